@@ -163,7 +163,7 @@ def run_live_legs(wd, tier, devs, out):
         out["error_live"] = e
 
 
-def generate(wd, tier, devs, out):
+def generate(wd, tier, devs, bins, out):
     thorough = tier == "thorough"
     try:
         beh = os.path.join(wd, "behaviours.ndjson")
@@ -213,7 +213,8 @@ def generate(wd, tier, devs, out):
                 tlc_res.append(g)
                 if counts["script"] == before:
                     raise vlib.ToolError("scripted generator (Max = %d) produced no behaviour: the scenario is not a behaviour of the spec" % mx)
-        out["gen"] = (beh, counts, tlc_res)
+        o = vlib.run_harness(bins["replay_sessions"], ["--overrides", "c2=1"], stdin_path=beh, timeout=1800)
+        out["gen"] = (beh, counts, tlc_res, o)
     except Exception as e:  # noqa
         out["error_gen"] = e
 
@@ -221,11 +222,13 @@ def generate(wd, tier, devs, out):
 DRIVE_PLAN_QUICK = [
     dict(name="mix8", args=["--max", "8", "--waves", "8"]),
     dict(name="max1", args=["--max", "1", "--waves", "2", "--kinds", "storm,h1", "--zombie", "1"]),
-    dict(name="max20", args=["--max", "20", "--waves", "3", "--kinds", "storm,perip,h1", "--zombie", "1"]),
+    dict(name="max20", args=["--max", "20", "--waves", "2", "--kinds", "storm,perip", "--zombie", "1"]),
 ]
 
 
 def drive(wd, tier, bins, out):
+    import time
+    t0 = time.time()
     try:
         plan = list(DRIVE_PLAN_QUICK)
         if tier == "thorough":
@@ -241,6 +244,9 @@ def drive(wd, tier, bins, out):
                 raise vlib.ToolError("drive_sessions produced no summary (%s)" % p["name"])
             t = vlib.tlc_trace("Trace_Sessions", "Trace_Sessions.cfg", PID, trace, timeout=900)
             runs.append((p["name"], trace, summ[0], t))
+            vlib.log("driver run %s done at +%.0fs" % (p["name"], time.time() - t0))
+        if runs[0][3]["accepted"] and not canary(wd, runs[0][1]):
+            raise vlib.ToolError("canary: a corrupted trace was accepted by Trace_Sessions")
         out["drive"] = runs
     except Exception as e:  # noqa
         out["error_drive"] = e
@@ -304,7 +310,7 @@ def run(tier, replay=None):
     out = {}
     th = [threading.Thread(target=run_tlc_legs, args=(wd, tier, devs, out)),
           threading.Thread(target=run_live_legs, args=(wd, tier, devs, out)),
-          threading.Thread(target=generate, args=(wd, tier, devs, out)),
+          threading.Thread(target=generate, args=(wd, tier, devs, bins, out)),
           threading.Thread(target=drive, args=(wd, tier, bins, out))]
     for t in th:
         t.start()
@@ -325,12 +331,11 @@ def run(tier, replay=None):
         raise vlib.ToolError("liveness self-test: deviation NoHystFloor (Max = 1) no longer violates P_C16_Resumes (%s)" % st["violated"])
 
     # ---- 2. S->I
-    beh, counts, gens = out["gen"]
+    beh, counts, gens, o = out["gen"]
     for g in gens:
         rep.add_tlc(g)
         if g["violated"]:
             raise vlib.ToolError("generator run reported a violation: %s" % g["violated"])
-    o = vlib.run_harness(bins["replay_sessions"], ["--overrides", "c2=1"], stdin_path=beh, timeout=1800)
     summ = [x for x in o if x.get("kind") == "summary"]
     if not summ:
         raise vlib.ToolError("replay_sessions produced no summary")
@@ -366,9 +371,6 @@ def run(tier, replay=None):
             rep.violation("gauge-underflow:%s" % name, json.dumps(s["underflows"])[:300], s)
         rep.add_samples([{"run": name, "max": s["max"], "connections": s["connections"], "max_served": s["max_served"],
                           "statuses": s["statuses"], "events": s["event_kinds"]}], 1)
-    first = out["drive"][0]
-    if first[3]["accepted"] and not canary(wd, first[1]):
-        raise vlib.ToolError("canary: a corrupted trace was accepted by Trace_Sessions")
 
     rep.cov["traces_validated_against_impl"] = n_beh + accepted
     rep.cov["distinct_nontrivial"] = summ["distinct"] + sessions
